@@ -2,6 +2,8 @@
 consistent."""
 from simlib import boot  # noqa: F401
 from simlib import runner
+from simlib.core import HarnessError
+from twisted.python.failure import Failure
 from simlib.boot import RNG
 from checks import common_a as ca
 from worlds.mailbox import MailboxWorld
@@ -82,11 +84,141 @@ def sweep(tier):
 
 
 def configs(tier):
-    return [{"case": "history", "spake": "stub"}]
+    return [{"case": "history", "spake": "stub"},
+            {"case": "history", "spake": "stub"},
+            {"case": "readline", "spake": "stub"}]
 
 
 def V(key, clause, detail):
     return {"key": key, "clause": clause, "detail": detail}
+
+
+def case_readline(seed, tape, opts):
+    """The CLI's interactive entry: the real _rlcompleter.CodeInputter on the
+    real input helper. The 'user' is the harness: between keystrokes the
+    simulation runs; TAB calls _commit_and_build_completions(text), Return
+    calls finish(text). blockingCallFromThread is replaced by 'call it, and
+    if it returns a Deferred run the simulation until it fires'."""
+    from wormhole._rlcompleter import CodeInputter
+    from twisted.internet.defer import Deferred
+    w = MailboxWorld(tape, dict(opts, spake="stub"))
+    sim = w.sim
+    viol = []
+
+    def VV(key, clause, detail):
+        if not viol:
+            viol.append(V(key, clause, detail))
+    a = w.add_client("A", api="deferred")
+    b = w.add_client("B", api="deferred")
+    a.script = [("allocate", 2)]
+    sim.run(2000, until=lambda: a.has("code"), max_time=60)
+    if not a.has("code"):
+        raise HarnessError("readline case: no code allocated")
+    np_a, words_a = a.code.split("-", 1)
+    # other nameplates on the server: one that extends A's, one unrelated
+    ext = np_a + tape.pick(("2", "0", "77"), "ext")
+    for i, npx in enumerate((ext, "909")):
+        c = w.add_client("X%d" % i, api="deferred")
+        c.script = [("set_code", npx + "-x-y")]
+    sim.run(400, max_time=10)
+    h = b.w.input_code()
+    ci = CodeInputter(h, sim.reactor)
+
+    def poke():
+        # calls made from outside a simulator step: flush what they wrote
+        if sim.net.autoflush:
+            sim.net.autoflush_all()
+
+    def bcft(f, *args, **kw):
+        r = f(*args, **kw)
+        poke()
+        if isinstance(r, Deferred):
+            box = []
+            r.addBoth(box.append)
+            sim.run(3000, until=lambda: bool(box), max_time=60)
+            if not box:
+                raise HarnessError("readline case: helper Deferred never "
+                                   "fired")
+            if isinstance(box[0], Failure):
+                box[0].raiseException()
+            return box[0]
+        return r
+    ci.bcft = bcft
+    poke()
+    session = []
+    text = ""
+    done = False
+    committed = None
+    for step in range(3 + tape.choose(8, "nkeys")):
+        sim.run(tape.choose(60, "think"), max_time=5)
+        act = tape.pick(("tab", "tab", "take", "np", "np_ext", "np_other",
+                         "hyphen", "frag", "words_a", "return"), "act")
+        if act == "np":
+            text = np_a
+        elif act == "np_ext":
+            text = ext + ("-" + text.split("-", 1)[1] if "-" in text else "")
+        elif act == "np_other":
+            text = "909" + ("-" + text.split("-", 1)[1] if "-" in text else "")
+        elif act == "hyphen":
+            text += "-"
+        elif act == "frag":
+            text += tape.pick(("a", "st", "z", words_a[:2]), "frag")
+        elif act == "words_a":
+            text = (text.split("-", 1)[0] if text else np_a) + "-" + words_a
+        if act in ("tab", "take"):
+            try:
+                m = ci._commit_and_build_completions(text)
+            except (E.AlreadyInputNameplateError, E.KeyFormatError,
+                    E.WormholeError) as e:
+                session.append(("tab", text, type(e).__name__))
+                continue
+            except Exception as e:
+                VV("C19.readline_exception." + type(e).__name__, "interactive "
+                   "entry follows docs/api.rst", "TAB on %r raised %r "
+                   "(session %r)" % (text, e, session))
+                break
+            session.append(("tab", text, len(m)))
+            if "-" in text and committed is None:
+                committed = text.split("-", 1)[0]
+            for c in m:
+                if not c.startswith(text):
+                    VV("C19.readline_completion_not_extension", "every "
+                       "completion offered extends what was typed",
+                       "typed %r, offered %r" % (text, c))
+            if act == "take" and m:
+                text = tape.pick(m, "takei")
+        elif act == "return":
+            try:
+                ci.finish(text)
+                session.append(("return", text, "ok"))
+                done = True
+            except (E.AlreadyInputNameplateError, E.KeyFormatError,
+                    E.WormholeError) as e:
+                session.append(("return", text, type(e).__name__))
+                continue
+            except Exception as e:
+                VV("C19.readline_exception." + type(e).__name__, "interactive "
+                   "entry follows docs/api.rst", "Return on %r raised %r "
+                   "(session %r)" % (text, e, session))
+            break
+        else:
+            session.append((act, text))
+    if done and not viol:
+        sim.run(2000, until=lambda: b.has("code"), max_time=60)
+        if b.code != text:
+            VV("C19.readline_code_differs", "choosing an offered completion / "
+               "entering a code yields that code", "the user entered %r (and "
+               "Return was accepted) but the wormhole's code is %r; session "
+               "%r" % (text, b.code, session))
+    for c in w.clients:
+        c.do_close()
+    sim.run(3000, until=lambda: all(c.is_closed for c in w.clients),
+            max_time=120)
+    w.finish()
+    return ca.result(sim, w, viol[0] if viol else None,
+                     any(x[0] == "tab" for x in session), seed,
+                     extra_sample={"case": "readline", "code_A": a.code,
+                                   "session": session[:12], "code_B": b.code})
 
 
 def case_exhaustive(seed, tape, opts):
@@ -142,6 +274,8 @@ def run_one(seed, tape, opts):
     case = opts.get("case", "history")
     if case == "exhaustive_words":
         return case_exhaustive(seed, tape, opts)
+    if case == "readline":
+        return case_readline(seed, tape, opts)
     odd, even = reference_lists()
     w = MailboxWorld(tape, dict(opts, spake="stub"))
     sim = w.sim
